@@ -19,8 +19,8 @@ ID = "C18"
 LEVEL = "model_checking"
 MIN_OUTCOMES = 2
 MANIFEST = {
-    "text": "Complete product of the stated abstract-configuration dimensions, each point rendered in six config syntaxes and read by "
-    "the real loader: the six Config results must be identical in every field the property names (versions, pattern, messages, scope, "
+    "text": "Complete product of the stated abstract-configuration dimensions, each point rendered in six config syntaxes (setup.cfg and bumpver.toml also with CRLF line endings) and read by "
+    "the real loader: all Config results must be identical in every field the property names (versions, pattern, messages, scope, "
     "hooks, commit/tag/push, file/pattern pairs, acceptance) and equal to the abstract configuration; the config file's own entry is "
     "judged by function (it must match exactly the current_version line); CLI `show`/`update --dry` agree on a core subset.",
     "note": "TOML features beyond plain tables/strings/arrays and mixed quoting of the two version keys inside one INI file are outside "
@@ -40,7 +40,9 @@ TAG_MSGS = [None, "", "release {new_version}"]
 SCOPES = [None, "default", "global", "branch"]
 HOOKS = [None, "", "hook.sh", "missing.sh"]
 LAYOUTS = ["none", "1x1", "1x3", "2x2", "glob", "explicit"]
-RENDERINGS = ["setup.cfg[bumpver]", "setup.cfg[pycalver]", "pyproject.toml", "bumpver.toml", ".bumpver.toml", "pycalver.toml"]
+RENDERINGS = ["setup.cfg[bumpver]", "setup.cfg[pycalver]", "pyproject.toml", "bumpver.toml", ".bumpver.toml", "pycalver.toml",
+              # the same files as they look when saved with Windows line endings
+              "setup.cfg[bumpver]+crlf", "bumpver.toml+crlf"]
 INI_TRUE = ["yes", "true", "1", "on", "Yes", "TRUE", "On", "True"]
 INI_FALSE = ["no", "false", "0", "off", "No", "FALSE", "Off", "False"]
 
@@ -65,6 +67,9 @@ def layout_entries(layout, cfgname, toml):
 def render(abstract, rendering):
     """-> (config file name, text)"""
     (ver, pat), quoted, (c, t, p), cmsg, tmsg, scope, hook, layout, bools = abstract
+    if rendering.endswith("+crlf"):
+        name, text = render(abstract, rendering[:-5])
+        return name, text.replace("\n", "\r\n")
     name = rendering.split("[")[0]
     toml = name.endswith(".toml")
     section = {"setup.cfg[bumpver]": "bumpver", "setup.cfg[pycalver]": "pycalver", "pyproject.toml": "tool.bumpver",
@@ -158,7 +163,7 @@ def observe(cfgname):
         "files": sorted(fp.items()),
     }
     # the config file's own entry, judged by function: it must match exactly the current_version line of this file
-    with open(cfgname, encoding="utf-8") as f:
+    with open(cfgname, encoding="utf-8", newline="") as f:
         lines = f.read().split("\n")
     hits = []
     for p in own or []:
@@ -223,7 +228,7 @@ def run_chunk(chunk):
             for other in ("setup.cfg", "pyproject.toml", "bumpver.toml", ".bumpver.toml", "pycalver.toml"):
                 if os.path.exists(other):
                     os.unlink(other)
-            with open(name, "w", encoding="utf-8") as f:
+            with open(name, "w", encoding="utf-8", newline="") as f:
                 f.write(text)
             try:
                 results[rendering] = observe(name)
@@ -284,7 +289,7 @@ def judge(st, abstract, results):
             st.violation(f"C18:settings-differ-from-abstract-configuration:{wrong[0]}", case, {"fields": wrong, "loader": {k: ref[k] for k in wrong}, "abstract": {k: exp[k] for k in wrong}})
             return
     st.validated += len(results)
-    st.outcomes["same-in-all-six:" + ("rejected" if ref is None else "accepted")] += 1
+    st.outcomes["same-in-all-renderings:" + ("rejected" if ref is None else "accepted")] += 1
 
 
 def _fmt(r):
@@ -298,7 +303,7 @@ def cli_level(st, abstract):
         for other in ("setup.cfg", "pyproject.toml", "bumpver.toml", ".bumpver.toml", "pycalver.toml"):
             if os.path.exists(other):
                 os.unlink(other)
-        with open(name, "w", encoding="utf-8") as f:
+        with open(name, "w", encoding="utf-8", newline="") as f:
             f.write(text)
         o1 = world.cli("show", "--no-fetch")
         o2 = world.cli("update", "--dry", "--no-fetch", "--set-version", {"1.2.3": "1.2.4", "v202003.1001-beta": "v202103.1002", "v201712.0033-beta": "v201801.0034"}[abstract[0][0]])
@@ -317,7 +322,7 @@ def cli_level(st, abstract):
         st.violation("C18:cli-show-or-dry-update-differs-between-formats", {"abstract": [list(x) if isinstance(x, tuple) else x for x in abstract]},
                      {k: list(v) for k, v in outs.items()})
     else:
-        st.outcomes["cli-same-in-all-six"] += 1
+        st.outcomes["cli-same-in-all-renderings"] += 1
 
 
 def replay(case, st):
